@@ -25,6 +25,7 @@ import re
 import shlex
 
 from . import extract as ex
+from . import alpha
 
 
 class WeaveError(Exception):
@@ -51,6 +52,15 @@ class Weaver:
         self.item_records = []
         self.templates_used = []
         self.lost_anchors = []
+        self.names_seen = {}
+        npath = os.path.join(contracts_dir, 'names.json')
+        self.names = {}
+        if os.path.exists(npath):
+            import json
+            try:
+                self.names = json.load(open(npath))
+            except Exception:
+                self.names = {}
 
     def source(self, rel):
         if rel not in self.sources:
@@ -229,6 +239,10 @@ class Weaver:
         rec = FnRecord()
         rec.qual, rec.file, rec.sha, rec.assumed = qual, rel, it.sha(), assumed
         log = rec.rules
+        # R18: restore the parameter / local names the contracts were written against (alpha-conversion)
+        nkey = rel + '::' + qual
+        self.names_seen[nkey] = alpha.snapshot(it.head, it.body)
+        it.head, it.body = alpha.restore_names(it.head, it.body, self.names.get(nkey), log)
         head = ex.rewrite_sig(it.head, ret, log)
         if vis is not None and not head.startswith('pub'):
             head = vis + ' ' + head
